@@ -29,7 +29,7 @@ CLAIMED = {
    ref="DESIGN.md Part II C13"),
  "C15": dict(
    text="AntiAmp.tla: credit counter (as an integer, so wrapping is visible), NORMAL / GRANTED / ABORTED state, per-path byte totals and the SendWaker bit, with the burst task's steps (balance read, segments, padding, debit after the burst) interleaved with arrivals at the granularity of the atomic operations; MC_AntiAmp checks sent <= 3 x rcvd while unvalidated, CreditNeverWraps, ResumeOnRcvdOrGrant, nothing after abort. Every call sequence TLC enumerates is executed on the real AntiAmplifier (+ Constraints) and validated step by step; per-path datagram byte counts of full-stack runs (vh-sim) are validated against the same invariants.",
-   note="one recorded finding on the full stack (burst / padding beyond the credit).",
+   note="TLC, JSON trace I/O, read-only hooks AntiAmplifier::verif_state / Path::verif_anti_amplifier; the burst loop is bound through the full-stack per-path byte stream only (an overshoot within the slack left by under-crediting is not observable).",
    ref="DESIGN.md Part II C15"),
  "C16": dict(
    text="Wakers.tla: monitor of the property (conditions, owed notifications, sleepers, wake counters; NoLostWakeup, CloseWakesAll, ResultAgrees, liveness EventuallyObserves under fair re-polling) and the two protocol shapes of the code (waker slot next to the data; SendWaker bitmask with the condition checked outside the lock; the CidCell composite) as refinements; MC_Wakers checks safety and liveness for 1-2 waiters and 1-2 notifiers with a negative control. Gen_Wakers enumerates every call order (check, register, re-poll, drop, set, notify, close) to a fixed depth per class; each is executed on 37 real waiter/notifier objects with counting wakers and every step is validated by TLC.",
